@@ -52,6 +52,25 @@ func (m c19) Run(ctx *core.Ctx) {
 		ctx.Begin(cs)
 		m.Exec(ctx, cs)
 	}
+	// sampled parser-option configurations
+	for i := int64(0); i < n; i++ {
+		var cfg []string
+		for _, o := range randomConfig(r) {
+			if _, isCanon := optionForIsCanon(o); !isCanon {
+				cfg = append(cfg, o)
+			}
+		}
+		if len(cfg) == 0 {
+			cfg = []string{"allownonbasepath"}
+		}
+		in := gen.StartURL(r)
+		if r.IntN(3) == 0 {
+			in = gen.Pick(r, []string{"mailto:x@y", "a:p", "data:,x  ?q#f", "mailto:%2Fx", "a:/p", "http://h/p", "file:///C|/x"})
+		}
+		cs := &core.Case{Check: "option-config", Input: core.S(in), Config: cfg, Ops: genHistory(r, 4, histKinds{setters: true, resolve: true, clone: true})}
+		ctx.Begin(cs)
+		m.Exec(ctx, cs)
+	}
 }
 
 func isDottedDecimal(h string) bool {
@@ -183,7 +202,76 @@ func (m c19) execTable(ctx *core.Ctx, cs *core.Case) {
 	}
 }
 
+// execConfig: the accessor relations that do not depend on what a relaxing option lets through
+// (delimiter pairs, OpaquePath vs the shape of the serialization, IsIPv6 vs brackets, String = Href,
+// Host = Hostname[:Port]) under sampled parser-option configurations, after every step.
+func (m c19) execConfig(ctx *core.Ctx, cs *core.Case) {
+	p := buildParser(cs.Config)
+	input := string(cs.Input)
+	u, err, pan := parseImpl(ctx, p, input, "", false, false)
+	if pan != nil || err != nil || u == nil {
+		return
+	}
+	ctx.Nontrivial()
+	ctx.Count("states_option_configs")
+	check := func(where string) bool {
+		var s obs.Snap
+		if pan := ctx.Call(64, func() { s = obs.Take(u) }); pan != nil {
+			return false
+		}
+		var bad []string
+		fail := func(f string, a ...any) { bad = append(bad, fmt.Sprintf(f, a...)) }
+		if s.Protocol != s.Scheme+":" {
+			fail("Protocol %q != Scheme %q + ':'", s.Protocol, s.Scheme)
+		}
+		if (s.Query == "") != (s.Search == "") || (s.Query != "" && s.Search != "?"+s.Query) {
+			fail("Search %q does not agree with Query %q", s.Search, s.Query)
+		}
+		if (s.Fragment == "") != (s.Hash == "") || (s.Fragment != "" && s.Hash != "#"+s.Fragment) {
+			fail("Hash %q does not agree with Fragment %q", s.Hash, s.Fragment)
+		}
+		if rest := strings.TrimPrefix(s.Href, s.Scheme+":"); s.Scheme != "" && s.Opaque != !strings.HasPrefix(rest, "/") {
+			fail("OpaquePath = %v but href is %q", s.Opaque, s.Href)
+		}
+		if s.Str != s.Href {
+			fail("String() %q != Href(false) %q", s.Str, s.Href)
+		}
+		want := s.Hostname
+		if s.Port != "" {
+			want += ":" + s.Port
+		}
+		if s.Host != want {
+			fail("Host %q != Hostname[:Port] %q", s.Host, want)
+		}
+		if s.Port != "" {
+			if n, err := strconv.Atoi(s.Port); err == nil && s.DecodedPort != n {
+				fail("DecodedPort = %d but Port is %q", s.DecodedPort, s.Port)
+			}
+		}
+		if len(bad) > 0 {
+			ctx.Violate("derived accessor disagrees under a parser-option configuration: "+invariantClass(bad[0]), "accessors agree with the components", s.Href, where+" options "+strings.Join(cs.Config, ",")+": "+strings.Join(bad, " | "))
+			return false
+		}
+		return true
+	}
+	if !check("after parse") {
+		return
+	}
+	for i, op := range cs.Ops {
+		if pan := ctx.Call(opBytes(op)+len(input)+256, func() { u = applyOp(u, op) }); pan != nil {
+			return
+		}
+		if !check(fmt.Sprintf("after step %d %s", i, clipS(op.String(), 100))) {
+			return
+		}
+	}
+}
+
 func (m c19) Exec(ctx *core.Ctx, cs *core.Case) {
+	if cs.Check == "option-config" {
+		m.execConfig(ctx, cs)
+		return
+	}
 	if len(cs.Config) > 0 {
 		m.execTable(ctx, cs)
 		return
